@@ -7693,9 +7693,9 @@ impl<V: Introspect, const C: usize> Introspect for arrayvec::ArrayVec<V, C> {
 
 #[cfg(feature = "arrayvec")]
 impl<V: Packed, const C: usize> Packed for arrayvec::ArrayVec<V, C> {
-    unsafe fn repr_c_optimization_safe(version: u32) -> IsPacked {
-        V::repr_c_optimization_safe(version)
-    }
+    // An ArrayVec is never packed itself: in memory it is a length word followed
+    // by C (possibly uninitialized) element slots, on disk a u64 length followed
+    // by the initialized elements.
 }
 
 #[cfg(feature = "arrayvec")]
